@@ -301,7 +301,7 @@ def run(ctx):
     mods = ["TomlVerif.Props.C13", "driver"]
     lake_build(ctx, mods, {"TomlVerif.Props.C13": "property theorems"})
     audit(ctx, "TomlVerif.Props.C13", "TomlVerif/Props/C13.lean")
-    extra_props(ctx, ["C13Typed"])
+    extra_props(ctx, ["C13Typed", "C13TypedParsed"])
     if ctx.tier == "thorough":
         leanchecker(ctx, "TomlVerif.Props.C13")
     bins = build_both(ctx)
